@@ -6,9 +6,11 @@ import (
 	"context"
 	"encoding/json"
 	"fmt"
+	"os"
 	"reflect"
 	"runtime/debug"
 	"sort"
+	"sync"
 	"sync/atomic"
 
 	"github.com/99designs/gqlgen/codegen/templates"
@@ -72,14 +74,35 @@ func Names() []string {
 
 // Server is one built vector: executable schema over the universal resolver.
 type Server struct {
-	P          *Project
-	U          *univ.Universe
-	ES         graphql.ExecutableSchema
-	Schema     *ast.Schema
-	Exec       *executor.Executor
-	Stub       any
-	Directives any
-	Complexity any
+	// DefaultRecover: Do keeps graphql.DefaultRecover as the recover hook (every panic is then
+	// reported as "internal system error")
+	DefaultRecover bool
+	P              *Project
+	U              *univ.Universe
+	ES             graphql.ExecutableSchema
+	Schema         *ast.Schema
+	Exec           *executor.Executor
+	Stub           any
+	Directives     any
+	Complexity     any
+}
+
+// DefaultRecoverMsg is what graphql.DefaultRecover answers for every panic.
+const DefaultRecoverMsg = "internal system error"
+
+var stderrMu sync.Mutex
+
+// quietDefaultRecover calls graphql.DefaultRecover - which prints the panic value and a stack trace
+// to os.Stderr - with os.Stderr pointed at the null device.
+func quietDefaultRecover(ctx context.Context, err any) error {
+	stderrMu.Lock()
+	defer stderrMu.Unlock()
+	old := os.Stderr
+	if null, e := os.OpenFile(os.DevNull, os.O_WRONLY, 0); e == nil {
+		os.Stderr = null
+		defer func() { os.Stderr = old; null.Close() }()
+	}
+	return graphql.DefaultRecover(ctx, err)
 }
 
 // RecoverMsg is the error message the harness recover hook produces for a panic value.
@@ -123,6 +146,8 @@ type Response struct {
 	// Panic: a panic escaped gqlgen's own code (executor/validation), with its stack
 	Panic      any
 	PanicStack string
+	// DefaultRecover: gqlgen's own recover hook was in place (Recovers is -1: not counted)
+	DefaultRecover bool
 }
 
 // Do executes one operation directly against the executor with the given Exec state current.
@@ -139,6 +164,9 @@ func (s *Server) Do(ctx context.Context, e *univ.Exec, query, opName string, var
 		recovers.Add(1)
 		return gqlerror.Errorf("%s", RecoverMsg(err))
 	})
+	if s.DefaultRecover {
+		ex.SetRecoverFunc(quietDefaultRecover)
+	}
 	ctx = graphql.StartOperationTrace(ctx)
 	rc, errs := ex.CreateOperationContext(ctx, &graphql.RawParams{Query: query, OperationName: opName, Variables: vars})
 	if errs != nil {
@@ -147,10 +175,14 @@ func (s *Server) Do(ctx context.Context, e *univ.Exec, query, opName string, var
 	}
 	rh, ctx2 := ex.DispatchOperation(ctx, rc)
 	resp := rh(ctx2)
-	if resp == nil {
-		return &Response{Recovers: int(recovers.Load())}
+	nrec := int(recovers.Load())
+	if s.DefaultRecover {
+		nrec = -1
 	}
-	return &Response{Data: resp.Data, Errors: resp.Errors, Recovers: int(recovers.Load()), HasNext: resp.HasNext, Label: resp.Label, Path: resp.Path, OpCtx: rc}
+	if resp == nil {
+		return &Response{Recovers: nrec, DefaultRecover: s.DefaultRecover}
+	}
+	return &Response{Data: resp.Data, Errors: resp.Errors, Recovers: nrec, DefaultRecover: s.DefaultRecover, HasNext: resp.HasNext, Label: resp.Label, Path: resp.Path, OpCtx: rc}
 }
 
 // DoAll executes one operation and reads payloads until the response handler returns nil (or max
